@@ -466,8 +466,10 @@ def check_fmap(res, rng):
                 add_lost(rng.randint(1, 3))
     else:
         cuts = sorted(rng.sample(range(P + 1), min(P + 1, 2 * nsp)))
+        rev_mode = rng.random()
         for i in range(0, len(cuts) - 1, 2):
-            add_span(cuts[i], cuts[i + 1])
+            # minus-orientation spans (read right to left): none / all / mixed
+            add_span(cuts[i], cuts[i + 1], rev=(rev_mode > 0.85) or (rev_mode > 0.7 and rng.random() < 0.5))
             if rng.random() < 0.3:
                 add_lost(rng.randint(1, 3))
         if rng.random() < 0.2:
@@ -504,7 +506,10 @@ def check_fmap(res, rng):
     nonover = len(cov) == len(present)
     sorted_ = present == sorted(cov)
     has_lost = any(x is None for x in m)
-    struct = (len(desc), has_lost, nonover, sorted_)
+    has_rev = any(d[0] == "S" and d[3] for d in desc)
+    if has_rev:
+        res.count("feature-maps-with-reverse-spans")
+    struct = (len(desc), has_lost, nonover, sorted_, has_rev)
     nt = struct if len(desc) >= 2 and (has_lost or not sorted_ or not nonover) else None
     decide("len", len(fm) == len(m))
     decide("coords-in-parent", all(0 <= x < P for x in cov))
@@ -514,7 +519,13 @@ def check_fmap(res, rng):
     ok, r = guarded("nucleic_reversed", lambda: fm.nucleic_reversed())
     if ok:
         exp = [None if x is None else P - 1 - x for x in reversed(m)]
-        decide("nucleic_reversed", fmodel(r) == exp and r.parent_length == P, nt, got=fmodel(r), exp=exp)
+        if has_rev:
+            # G: documented — "discards reverse attribute on both spans and self": for maps holding minus-orientation
+            # spans only the residues denoted (as a set, with gap positions) are demanded
+            ok_ = sorted(x for x in fmodel(r) if x is not None) == sorted(x for x in exp if x is not None) and [x is None for x in fmodel(r)] == [x is None for x in exp]
+        else:
+            ok_ = fmodel(r) == exp
+        decide("nucleic_reversed", ok_ and r.parent_length == P, nt, got=fmodel(r), exp=exp)
     if nonover:
         try:
             inv = fm.inverse()
@@ -567,9 +578,13 @@ def check_fmap(res, rng):
     ok, r = guarded("mul", lambda: fm * 3)
     if ok:
         exp = []
-        for x in m:
-            exp += [None] * 3 if x is None else [3 * x, 3 * x + 1, 3 * x + 2]
-        decide("mul", fmodel(r) == exp and r.parent_length == 3 * P, nt)
+        for d_ in desc:  # scaling keeps each span's orientation: a minus span still reads right to left
+            if d_[0] == "L":
+                exp += [None] * (3 * d_[1])
+            else:
+                pos = list(range(3 * d_[1], 3 * d_[2]))
+                exp += pos[::-1] if d_[3] else pos
+        decide("mul", fmodel(r) == exp and r.parent_length == 3 * P, nt, got=fmodel(r), exp=exp)
         ok2, r2 = guarded("truediv", lambda: r / 3)
         if ok2:
             decide("truediv", fmodel(r2) == m, nt, got=fmodel(r2), exp=m)
